@@ -196,10 +196,9 @@ func (u *updateExecutor) buildAfterImageSQL(beforeImage types.RecordImage, meta 
 	var selectFields string
 	var separator = ","
 	if undo.UndoConfig.OnlyCareUpdateColumns {
-		for _, row := range beforeImage.Rows {
-			for _, column := range row.Columns {
-				selectFields += column.ColumnName + separator
-			}
+		// every row of the before image has the same columns: name them once
+		for _, column := range beforeImage.Rows[0].Columns {
+			selectFields += column.ColumnName + separator
 		}
 		selectFields = strings.TrimSuffix(selectFields, separator)
 	} else {
